@@ -62,3 +62,30 @@ Proof.
   - apply PI_neq0.
 Qed.
 Print Assumptions C01_phase_negative_refuted.
+
+(* ---------- "never rejected with an internal error": whatever an expression tree over
+   uncertain real numbers raises is an arithmetic error of the float operations on the VALUES
+   (ZeroDivisionError / ValueError / OverflowError of a division or math-library call, incl. the
+   documented derivative singularities), the complex-result signal, or TypeError for an operand
+   that is not an uncertain real -- never AssertionError, KeyError, IndexError, AttributeError,
+   RuntimeError or NotImplementedError.  For every number instance whose primitives raise only
+   arithmetic errors (the reals do), every tree, every session state; the operator bodies are
+   the ones regenerated from lib.py. ---------- *)
+From GTCV Require Import Totality.
+
+Theorem C01_real_expressions_never_fail_internally :
+  forall (N : Num),
+    (forall x y e, div N x y = Err e -> arith_exn e) ->
+    (forall f x e, unary_fn f -> libm1 N f x = Err e -> arith_exn e) ->
+    (forall f x y e, binary_fn f -> libm2 N f x y = Err e -> arith_exn e) ->
+    forall (s : KTypes.state (T N)) (t : Kernel.expr N) e,
+      eval_un N s t = Err e ->
+      e <> AssertionError /\ e <> KeyError /\ e <> IndexError /\ e <> AttributeError /\ e <> RuntimeError /\
+      e <> NotImplementedError /\ e <> OtherExn /\ e <> OracleMissing.
+Proof. exact eval_un_never_internal. Qed.
+Print Assumptions C01_real_expressions_never_fail_internally.
+
+Theorem C01_real_expressions_total_over_reals :
+  forall (s : KTypes.state R) (t : Kernel.expr RNum) e, eval_un RNum s t = Err e -> allowed_exn e.
+Proof. exact eval_un_total_R. Qed.
+Print Assumptions C01_real_expressions_total_over_reals.
